@@ -371,7 +371,11 @@ pub async fn run_cl(tok: &[&str]) -> String {
     let framing = if tok[1] == "t" { Framing::Tcp } else { Framing::Rtu };
     let decode = decode_level(tok[2]);
     let queue: usize = tok[3][1..].parse().unwrap();
-    let maxto: usize = tok[4][1..].parse().unwrap();
+    // m<max timeouts>[i<initial transaction id>]
+    let (maxto, tx0): (usize, Option<u16>) = match tok[4][1..].split_once('i') {
+        Some((a, b)) => (a.parse().unwrap(), Some((b.parse::<u32>().unwrap() % 65536) as u16)),
+        None => (tok[4][1..].parse().unwrap(), None),
+    };
     let t0 = tokio::time::Instant::now();
     let log: Log = Arc::new(Mutex::new(Vec::new()));
     let count = Arc::new(Mutex::new(std::collections::HashMap::new()));
@@ -381,6 +385,9 @@ pub async fn run_cl(tok: &[&str]) -> String {
         std::num::NonZeroUsize::new(maxto),
         queue,
     );
+    if let Some(v) = tx0 {
+        client.set_next_tx_id(v);
+    }
     let mut handles: Vec<Option<Channel>> = vec![Some(channel)];
     let (phase_tx, mut phase_rx) = tokio::sync::mpsc::unbounded_channel::<Phase>();
     let tlog = log.clone();
